@@ -77,12 +77,12 @@ def ring_raw(n, families=None, maxarg=None, pinned=False, force=False, maxu=1073
 
 
 # ------------------------------------------------------------------------------------------------
-def layout_steps(n, start, size, route='back', h=0):
+def layout_steps(n, start, size, route='back', h=0, vals=None):
     """reach (start, size) through the public API only. Fillers are pushed first and popped one by one while the
     real elements are pushed, so that the buffer is never emptied on the way (an implementation that re-centres an
     empty buffer still reaches the layout); `expect_layout` records whether the layout was reached (drift note)."""
     st = [{"op": "new", "h": h}]
-    vals = [(k + 1) % 3 for k in range(size)]
+    vals = vals if vals is not None else [(k + 1) % 3 for k in range(size)]
     if n > 0 and route == 'back':
         fillers = start
         for _ in range(fillers):
@@ -188,13 +188,9 @@ def build(raw, sid, route='back', poison=None, observe=True):
         steps += layout_steps(n, lay['start'], lay['size'], route)
         if raw['evs'][0]['op'] == 'clone_from':
             src = lay.get('src', {'start': 0, 'size': 0})
-            s2 = layout_steps(n, src['start'], src['size'], route, h=1)
             # payload pattern of the source continues that of the destination (L1: PayloadOf(id) = id % 3)
-            k = 0
-            for st in s2[len(s2) - src['size']:]:
-                st['val'] = (lay['size'] + k + 1) % 3
-                k += 1
-            steps += s2
+            steps += layout_steps(n, src['start'], src['size'], route, h=1,
+                                  vals=[(lay['size'] + k + 1) % 3 for k in range(src['size'])])
         if poison == 'live':
             steps.append({"op": "mk", "val": 1})
         if poison:
@@ -217,7 +213,10 @@ def build(raw, sid, route='back', poison=None, observe=True):
             steps += FOLLOW_FORGET
         elif observe and ('iter' not in tags) and ('drain' not in tags or last in ('v_drop',)):
             steps.append({"op": "observe"})
-    return {"id": sid, "n": n, "ty": "t", "tags": sorted(tags), "steps": steps, "first_op": raw['evs'][0]['op'],
+    # behaviours that differ only in the physical front position (and in route / garbage) form one group: the same
+    # calls on the same logical contents, which must be indistinguishable (C04)
+    grp = core.sha(n, lay['size'], lay.get('src', {}).get('size', 0) if raw['evs'][0]['op'] == 'clone_from' else 0, json.dumps([[e['op'], e['i'], e['j'], e['vals'], e['bs'], e['be'], e.get('fk'), e.get('fn')] for e in raw['evs']]))
+    return {"id": sid, "n": n, "ty": "t", "tags": sorted(tags), "steps": steps, "first_op": raw['evs'][0]['op'], "grp": grp,
             "pred": {"start": lay['start'], "size": lay['size']}}
 
 
@@ -265,9 +264,9 @@ def io_random(rnd, n, sid, fams, length):
         r = rnd.random()
         if r < 0.35:
             k = rnd.choice([0, 1, 2, n, n + 1, 2 * n + 1, rnd.randint(0, 2 * n + 1)])
-            steps.append({"op": "write" if rnd.random() < 0.85 else "extend_ref", "vals": [rnd.randint(0, 255) for _ in range(k)], "fam": fam})
+            steps.append({"op": rnd.choice(["write"] * 8 + ["extend_ref", "write_all"]), "vals": [rnd.randint(0, 255) for _ in range(k)], "fam": fam})
         elif r < 0.6:
-            steps.append({"op": "read", "i": rnd.choice([0, 1, 2, n, n + 2, rnd.randint(0, n + 2)]), "fam": fam})
+            steps.append({"op": rnd.choice(["read", "read", "read_exact"]), "i": rnd.choice([0, 1, 2, n, n + 2, rnd.randint(0, n + 2)]), "fam": fam})
         elif r < 0.75:
             steps.append({"op": "fill_buf", "fam": fam})
         elif r < 0.92:
@@ -521,3 +520,28 @@ def random_history(rnd, n, sid, length, faults):
         if st:
             steps.append(st)
     return {"id": sid, "n": n, "ty": "t", "tags": ["random", "faults" if faults else "nofaults"], "steps": steps, "first_op": "random"}
+
+
+# ------------------------------------------------------------------------------------------------
+def reach(n):
+    """number of physical layouts (start, size) reachable from new() by push/pop alone (TLC, history mode, VIEW = layout).
+    The one-shot configurations start from EVERY layout; this shows that set is not an over-approximation."""
+    key = core.sha(core.spec_hash(['Ring.tla', 'Contract.tla', 'Reach_Ring.cfg.tmpl']), n)
+    path = os.path.join(core.ensure(os.path.join(OUT, 'scen')), 'reach_%d_%s.json' % (n, key))
+    if os.path.exists(path):
+        return json.load(open(path))
+    cfg = os.path.join(SPEC, '_gen_reach_%d_%d.cfg' % (n, os.getpid()))
+    t = open(os.path.join(SPEC, 'Reach_Ring.cfg.tmpl')).read().replace('@N@', str(n)).replace('@MAXCALLS@', str(3 * n + 2))
+    open(cfg, 'w').write(t)
+    md = os.path.join(OUT, 'work', 'md_reach_%d_%d' % (n, os.getpid()))
+    try:
+        rc, out = core.java_tlc(['-workers', '1', '-metadir', md, '-cleanup', '-noGenerateSpecTE', '-config', os.path.basename(cfg), 'Ring.tla'],
+                                heap='2g', timeout=1800)
+    finally:
+        os.remove(cfg)
+    st = core.tlc_stats(out)
+    if st is None or 'No error has been found' not in out:
+        raise ToolError('TLC failed on the reachability configuration N=%d:\n%s' % (n, out[-2000:]))
+    res = {'n': n, 'reachable_layouts': st['distinct'], 'all_layouts': n * (n + 1) if n > 0 else 1}
+    json.dump(res, open(path, 'w'))
+    return res
